@@ -41,6 +41,7 @@ func runC09(p *core.Prog, r *core.Report) {
 	c09R5(p, r)
 	c09R6(p, r)
 	c09R7(p, r)
+	c09R8(p, r)
 }
 
 func c09R2R3(p *core.Prog, r *core.Report) {
@@ -667,5 +668,103 @@ func c09R7(p *core.Prog, r *core.Report) {
 	}
 	if n == 0 {
 		r.Undecided(rule, "regclient", "entry reads", "", "no read of the tar reader field found")
+	}
+}
+
+// c09R8: a Docker archive lists several images; the importer selects one by name. What is imported
+// must be the entry that was selected: a function that walks the list to select an entry does not
+// read the list at a constant position.
+func c09R8(p *core.Prog, r *core.Report) {
+	const rule = "C09.R8"
+	r.Rule(rule, "the image imported from a Docker archive is the one selected: in a function that walks the list of manifest.json entries to pick one, every other read of the list is indexed by a value the selection can set, never by a constant", 1)
+	isList := func(v ssa.Value) bool {
+		ld, ok := v.(*ssa.UnOp)
+		if !ok || ld.Op != token.MUL {
+			return false
+		}
+		fa, ok := ld.X.(*ssa.FieldAddr)
+		if !ok {
+			return false
+		}
+		sl, ok := ld.Type().Underlying().(*types.Slice)
+		if !ok {
+			return false
+		}
+		st, ok := sl.Elem().Underlying().(*types.Struct)
+		if nt := core.NamedOf(fa.X.Type()); !ok || nt == nil || nt.Obj().Pkg() == nil || !strings.HasPrefix(nt.Obj().Pkg().Path(), modPath(".")) {
+			return false
+		}
+		for i := 0; i < st.NumFields(); i++ {
+			if st.Field(i).Name() == "RepoTags" {
+				return true
+			}
+		}
+		return false
+	}
+	n := 0
+	for _, fn := range pkgFuncs(p, ".") {
+		if fn.Parent() != nil {
+			continue
+		}
+		unit := core.WithAnon(fn)
+		type access struct {
+			ia *ssa.IndexAddr
+			in *ssa.Function
+		}
+		var reads []access
+		walks := false
+		for _, f := range unit {
+			loops := core.Loops(f)
+			for _, b := range f.Blocks {
+				for _, in := range b.Instrs {
+					ia, ok := in.(*ssa.IndexAddr)
+					if !ok || !isList(ia.X) {
+						continue
+					}
+					// the element access of a range loop over the list is the walk itself
+					ranged := false
+					for _, l := range loops {
+						if l.Blocks[b] {
+							for _, o := range core.Origins(ia.Index, core.SliceOpts{}) {
+								if ph, ok := o.Val.(*ssa.Phi); ok && ph.Block() == l.Header {
+									ranged = true
+								}
+								if o.Kind == core.OBinOp {
+									ranged = true
+								}
+							}
+						}
+					}
+					if ranged {
+						walks = true
+						continue
+					}
+					reads = append(reads, access{ia, f})
+				}
+			}
+		}
+		if !walks {
+			continue
+		}
+		lab := labeler{}
+		for _, a := range reads {
+			n++
+			label := lab.next("read of the manifest.json list")
+			constant := true
+			os := core.Origins(a.ia.Index, core.SliceOpts{})
+			for _, o := range os {
+				if o.Kind != core.OConst {
+					constant = false
+				}
+			}
+			if constant && len(os) > 0 {
+				r.Violated(rule, p.FuncName(a.in), label, p.Pos(a.ia.Pos()), "the list is read at a constant position in a function that selects an entry by walking the list: the entry imported is this one whatever the selection found")
+			} else {
+				r.Held(rule, p.FuncName(a.in), label, p.Pos(a.ia.Pos()), "indexed by a value the selection can set")
+			}
+		}
+	}
+	if n == 0 {
+		r.MissingAnchor(rule, "reads of the manifest.json entry list next to its selection loop")
 	}
 }
